@@ -80,7 +80,76 @@ func peelToTree(objs []gObj, o int) int {
 	return -1
 }
 
+// a crafted scenario that walks through every branch of rootTreePrefix / TreePrefix with awkward
+// directory and reference names: commit C -> tree T -> directory <dname> = tree S -> file f
+func genPathsScenario(r *rng) []string {
+	dnames := []string{"dir", "trail:", "co:lon", ":lead", "a:", "x:y:", "br{ace", "br}ace", "{}", "t^{tree}", "sl ash", "at@{1}", "{{cc}}"}
+	fnames := []string{"f", "file}", "{}", "g:", ":h", "x^{blob}", "n\nl"}
+	atomsL := []string{"HEAD", "refs/heads/main", "main~2", "refs/heads/a{b", "refs/heads/c}d", "v1^{}", "main@{1}", "refs/heads/e{f}g"}
+	dname, fname := dnames[r.n(len(dnames))], fnames[r.n(len(fnames))]
+	objs := []gObj{
+		{kind: 'b', size: 20},
+		{kind: 'b', size: 30},
+		{kind: 't', entries: []gEntry{{0o100644, []byte(fname), 0}}},                                            // 2 = S
+		{kind: 't', entries: []gEntry{{0o40000, []byte(dname), 2}, {0o100644, []byte(dname + fname), 1}}},       // 3 = T (with a decoy "<dname><fname>")
+		{kind: 'c', tree: 3, pad: 5}, // 4 = C
+		{kind: 'g', ref: 4, refKind: 'c', pad: 3}, // 5 = annotated tag of C
+	}
+	a := atomsL[r.n(len(atomsL))]
+	atomTarget := []int{4, 4, 5}[r.n(3)]
+	atoms := []string{hxs(a) + "=" + strconv.Itoa(atomTarget)}
+	name, target := a, atomTarget
+	switch r.n(7) {
+	case 0:
+	case 1:
+		name, target = a+"^{tree}", 3
+	case 2:
+		if !pathsOpenBrace(a) {
+			name, target = a+":", 3
+		}
+	case 3, 4:
+		if !pathsOpenBrace(a) {
+			name, target = a+":"+dname, 2
+		}
+	case 5:
+		if !pathsOpenBrace(a) {
+			name, target = a+":"+dname+"/", 2
+		}
+	default:
+		if !pathsOpenBrace(a) {
+			name, target = a+":"+dname+"/"+fname, 0
+		}
+	}
+	names := []string{hxs(name) + "=" + strconv.Itoa(target)}
+	ops := []string{"R0:b"}
+	if r.coin(1, 2) {
+		ops = append(ops, "R2:t")
+	}
+	if r.coin(1, 3) {
+		ops = append(ops, "R3:t")
+	}
+	recs := []string{"E2:" + hx([]byte(fname)) + ":0"}
+	if r.coin(3, 4) {
+		recs = append(recs, "E3:"+hx([]byte(dname))+":2")
+	}
+	if r.coin(1, 2) {
+		recs = append(recs, "E3:"+hx([]byte(dname+fname))+":1")
+	}
+	if r.coin(3, 4) {
+		recs = append(recs, "C4:3")
+	}
+	if r.coin(1, 2) {
+		r.shuffle(len(recs), func(i, j int) { recs[i], recs[j] = recs[j], recs[i] })
+	}
+	ops = append(ops, recs...)
+	ops = append(ops, "N"+hxs(name)+":"+strconv.Itoa(target))
+	return []string{encRepo(objs), joinOrDash(atoms, ","), joinOrDash(names, ","), joinOrDash(ops, ",")}
+}
+
 func genPathsCase(r *rng, tier string) []string {
+	if r.coin(1, 5) {
+		return genPathsScenario(r)
+	}
 	objs, _ := genE2ERepo(r, tier)
 	// nasty but storable entry names; some gitlinks that point at commits of this repository
 	for i := range objs {
@@ -92,6 +161,9 @@ func genPathsCase(r *rng, tier string) []string {
 			e := &objs[i].entries[j]
 			if r.coin(1, 3) {
 				e.name = []byte(pathsEntryNames[r.n(len(pathsEntryNames))])
+			}
+			if e.mode&0o170000 == 0o40000 && r.coin(1, 3) { // a directory whose own name contains or ends with ':'
+				e.name = []byte([]string{"trail:", "co:lon", ":lead", "a:", "x:y:"}[r.n(5)])
 			}
 			for used[string(e.name)] {
 				e.name = append(e.name, 'x')
@@ -152,7 +224,13 @@ func genPathsCase(r *rng, tier string) []string {
 					if objs[cur].kind != 't' || len(objs[cur].entries) == 0 {
 						break
 					}
-					e := objs[cur].entries[r.n(len(objs[cur].entries))]
+					ei := r.n(len(objs[cur].entries))
+					for k2, e2 := range objs[cur].entries { // prefer subtrees: roots of the form <rev>:<dir>
+						if e2.mode&0o170000 == 0o40000 && r.coin(1, 2) {
+							ei = k2
+						}
+					}
+					e := objs[cur].entries[ei]
 					for _, e2 := range objs[cur].entries { // prefer a submodule link to a commit stored here
 						if e2.mode&0o170000 == 0o160000 && e2.oid >= 0 && r.coin(1, 2) {
 							e = e2
